@@ -89,7 +89,7 @@ def prepare(u, repo):
                     text = hdr[-1] + " {\n" + text + "\n}\n"
                     rsx._count(e.rewrites, "wrapped_in_own_impl_header")
             if ex.get("wrap"):
-                text = ex["wrap"] + "\n{\n" + text + "\n}\n" + ex.get("wrap_close", "")
+                text = ex["wrap"] + "\n{\n" + ex.get("wrap_prefix", "") + text + ex.get("wrap_suffix", "") + "\n}\n" + ex.get("wrap_close", "")
                 rsx._count(e.rewrites, "R7.region_wrapped_as_fn")
             parts.append(text)
             fns.append({"unit": name, "address": addr, "file": e.path.replace(repo.rstrip("/") + "/", ""), "line": e.line,
@@ -155,40 +155,40 @@ def playback(dst, h, extra_flags):
     """ask Kani for concrete values of a failing harness"""
     cmd = ["cargo", "kani"] + KANI_FLAGS + extra_flags + ["--harness", h["name"], "--exact"] + _solver_flags(h) + [
         "-Z", "concrete-playback", "--concrete-playback=print"]
-    status, rc, out, wall = _run(cmd, dst, h.get("timeout_s", 600), 12)
+    status, rc, out, wall = _run(cmd, dst, h.get("timeout_s", 600) * 2, max(h.get("mem_gb", 12), 12))
     return parse_playback(out)
 
 
 
-def native_playback(dst, h, extra_flags, timeout=1500):
-    """Re-run the failing harness with --concrete-playback=inplace (Kani writes a #[test] with the concrete values of
-    every kani::any() next to the harness), then EXECUTE that test natively with `cargo kani playback`.  The harness
+def native_playback(dst, h, extra_flags, w, timeout=1500):
+    """EXECUTE Kani's counterexample natively: the unit test Kani printed for the failed check (concrete values of every
+    kani::any()) is appended to the harness module of the build copy and run with `cargo kani playback`.  The harness
     calls the real text (path-included real file / real crate, or the text extracted from /repo next to shim types),
     so a failing native run is the verifier's counterexample reproduced by execution.  -> dict or None"""
-    cmd = ["cargo", "kani"] + KANI_FLAGS + extra_flags + ["--harness", h["name"], "--exact"] + _solver_flags(h) + [
-        "-Z", "concrete-playback", "--concrete-playback=inplace"]
-    status, rc, out, wall = _run(cmd, dst, h.get("timeout_s", 600) * 2, h.get("mem_gb", 16))
-    names = re.findall(r"^\s*-\s*(kani_concrete_playback_[A-Za-z0-9_]+)\.?\s*$", out, re.M)
-    if not names:
+    if not w or not w.get("unit_test"):
         return None
-    lib = open(os.path.join(dst, "src", "lib.rs")).read()
-    res = None
-    for tname in names:
-        m = re.search(r"(#\[test\]\s*fn %s\(\)\s*\{.*?\n\})" % re.escape(tname), lib, re.S)
-        text = m.group(1) if m else ""
-        st2, rc2, out2, wall2 = _run(["cargo", "kani", "playback", "-Z", "concrete-playback", "--", tname, "--exact", "--nocapture"]
-                                     if False else
-                                     ["cargo", "kani", "playback", "-Z", "concrete-playback", "--", tname], dst, timeout, None)
-        failed = bool(re.search(r"test result: FAILED", out2)) and tname in out2
-        pm = re.search(r"panicked at ([^\n]*)\n([^\n]*)", out2)
-        r = {"kind": "kani-concrete-playback-executed-natively", "test_name": tname, "unit_test": text[:200000],
-             "harness": h["name"], "reproduced": failed,
-             "panic": (pm.group(1) + " :: " + pm.group(2)).strip()[:400] if pm else None,
-             "cmd": "cd %s && cargo kani playback -Z concrete-playback -- %s" % (dst, tname), "wall_s": round(wall2, 1)}
-        if failed and (pm is None or "cover" not in (pm.group(2) or "")):
-            return r
-        res = res or r
-    return res
+    text = w["unit_test"]
+    m = re.search(r"fn (kani_concrete_playback_[A-Za-z0-9_]+)\(", text)
+    if not m:
+        return None
+    tname = m.group(1)
+    lib = os.path.join(dst, "src", "lib.rs")
+    orig = open(lib).read()
+    body = orig.rstrip()
+    if not body.endswith("}"):
+        return None
+    open(lib, "w").write(body[:-1] + "\n" + text + "\n}\n")
+    try:
+        st2, rc2, out2, wall2 = _run(["cargo", "kani", "playback", "-Z", "concrete-playback", "--", tname], dst, timeout, None)
+    finally:
+        open(lib, "w").write(orig)
+    failed = bool(re.search(r"test result: FAILED", out2)) and tname in out2
+    pm = re.search(r"panicked at ([^\n]*)\n([^\n]*)", out2)
+    return {"kind": "kani-concrete-playback-executed-natively", "test_name": tname, "unit_test": text,
+            "harness": h["name"], "reproduced": failed,
+            "panic": (pm.group(1) + " :: " + pm.group(2)).strip()[:400] if pm else None,
+            "ran": "test result:" in out2,
+            "cmd": "cd %s && cargo kani playback -Z concrete-playback -- %s" % (dst, tname), "wall_s": round(wall2, 1)}
 
 
 def parse_playback(out):
@@ -208,7 +208,7 @@ def parse_playback(out):
             continue
         vals_hex.append("%x" % int.from_bytes(bytes(bs), "little"))
     shown = re.findall(r"//\s*(\S+)\s*\n\s*vec!\[", body)
-    return {"kind": "kani-concrete-playback", "unit_test": test.strip()[:6000],
+    return {"kind": "kani-concrete-playback", "unit_test": test.strip()[:200000],
             "values_in_order_of_kani_any": shown, "any_values_hex": ",".join(vals_hex)}
 
 
@@ -310,7 +310,7 @@ def run_unit(u, repo, tier, seed, relock=False, prop=None):
                 # the counterexample counts as a witness only once it fails on the REAL function (native crate with a
                 # path dependency on /repo, built on demand); otherwise the violation is reported without an input
                 if not u.get("replay_native") or u.get("always_native_playback"):
-                    npb = native_playback(dst, h, extra)
+                    npb = native_playback(dst, h, extra, w)
                     if npb and npb.get("reproduced"):
                         npb["found"] = True
                         npb["key"] = "kani-playback:%s:%s" % (name, h["name"])
